@@ -19,13 +19,15 @@ mv /tmp/demo_$id.go.aside $demo
 echo "WITH: $with"; echo "WITHOUT: $without"; echo "EXISTING: $existing"
 cp $out/patch.diff $dst/patch.diff; cp $wt/$demo $dst/$(basename $demo)
 # run the checks against the change
-cd /repo && git apply $dst/patch.diff || { echo "patch does not apply to /repo"; exit 1; }
+/verif/tools_scratch.sh
+export VERIF_REPO=/tmp/seedrepo VERIF_EVIDENCE=/tmp/seed_evidence
+cd /tmp/seedrepo && git apply $dst/patch.diff || { echo "patch does not apply to /repo HEAD"; exit 1; }
 res=""
 for c in $checks; do
   o=$(cd /verif && timeout 1500 ./check $c quick 2>/dev/null | grep -E "^VIOLATION|^OK |^INCONCLUSIVE|label=" | head -6 | tr '\n' ' ')
   res="$res [$c] $o"
 done
-git -C /repo checkout -- .
+git -C /tmp/seedrepo checkout -- .
 echo "CHECKS: $res"
 python3 - "$id" "$with" "$without" "$existing" "$res" "$pkg" "$run" <<'PY'
 import json,sys
